@@ -845,6 +845,26 @@ fn run_closure_capture(ops: &[Op]) {
 // The unrepaired code frees the running closure: the process may crash (the search leaves the input in a file).
 fn run_gc_roots(ops: &[Op]) {
     let last = ops.len() - 1;
+    if ops[0].0 % 2 == 1 {
+        // the host stores a table of strings into a VM whose heap is full of garbage: a collection runs while the table
+        // is being built; what comes back must be what went in (or insert_value reports OutOfMemory)
+        use cao_lang::value::{OwnedEntry, OwnedValue};
+        let n = 100 + (ops[0].1 % 6) as usize * 50;
+        let limit = [64usize, 96, 128][(ops[0].2.unsigned_abs() % 3) as usize] * 1024;
+        let entries: Vec<OwnedEntry> = (0..n).map(|i| OwnedEntry { key: OwnedValue::String(format!("key-{i:04}")), value: OwnedValue::String(format!("value-{i:04}")) }).collect();
+        let mut vm = Vm::new(()).unwrap();
+        vm.runtime_data.set_memory_limit(limit);
+        for i in 0..300 { let _ = vm.init_string(&format!("garbage-garbage-garbage-{i}")); }
+        let v = match vm.insert_value(&OwnedValue::Table(entries)) { Ok(v) => v, Err(_) => return };
+        match OwnedValue::try_from(v) {
+            Ok(OwnedValue::Table(es)) => {
+                let bad = es.iter().filter(|e| !matches!((&e.key, &e.value), (OwnedValue::String(k), OwnedValue::String(v)) if k.starts_with("key-") && v.starts_with("value-") && k[4..] == v[6..])).count();
+                if es.len() != n || bad > 0 { fail("gc_roots", ops, last, format!("insert_value of a {n}-entry string table into a {limit} byte heap holding garbage: {} entries read back, {bad} of them corrupted", es.len())); }
+            }
+            other => fail("gc_roots", ops, last, format!("insert_value returned a table that reads back as {:?}", other.map(|_| ()))),
+        }
+        return;
+    }
     let allocs = 500 + (ops[0].1 % 8) as i64 * 500;
     let limit = [32usize, 48, 64, 96][(ops[0].2.unsigned_abs() % 4) as usize] * 1024;
     let body = vec![
